@@ -82,6 +82,8 @@ def document(cls, units, variant, numdepth=3):
     k = len(units)
     parts = []
     labels = ['lb%d' % i for i in range(k)]
+    if variant == 'full' and k >= 2:
+        labels[-1] = 'index'        # a file-producing unit whose label spells the static file name of the template
     pre = 'bqaaz ' + ' '.join('\\ref{%s}' % l for l in labels[:2])
     if variant == 'full':
         pre += ' \\cite{ka}'
@@ -96,7 +98,7 @@ def document(cls, units, variant, numdepth=3):
             if i == min(1, k - 1):
                 s += ' \\begin{enumerate}\\item x\\item\\label{li1} y\\end{enumerate} \\ref{le0}\\pageref{lb0}\\index{alpha}'
             if i == k - 1:
-                s += ' z\\footnote{fqbz}\\index{\\_ua}\\index{\\_ub} \\begin{equation}c\\label{index}\\end{equation}\\ref{index}'
+                s += ' z\\footnote{fqbz}\\index{\\_ua}\\index{\\_ub} \\begin{equation}c\\label{le9}\\end{equation}\\ref{le9}'
         parts.append(s + '\n\n')
     tail = ''
     if variant == 'full':
